@@ -163,6 +163,93 @@ func copySet(set []types.V2Transaction) []types.V2Transaction {
 	return out
 }
 
+// chainIndexCase (oracle only; the model has no contract resolutions): a storage-proof resolution
+// carries the chain index element of the proof-window block.  That element is the last leaf its block
+// appends, so as of that block its Merkle proof is EMPTY whenever the accumulator holds an odd number
+// of leaves - a valid proof, which must grow when the set is moved forwards and must be reported
+// missing when the set is moved back past the block.  Only the element handling of
+// UpdateV2TransactionSet is exercised: the contract parent is marked ephemeral, nothing is submitted.
+func chainIndexCase(r *vh.Run, w *poolrig.World, rng *vh.RNG, name string) {
+	oc := &vh.Case{Name: name + "-cie", Model: "", Nontrivial: true, Tags: []string{"chain-index-element"}}
+	tip := w.TipID()
+	chain := w.Tree.Ancestry(tip)
+	pairs, empties := 0, 0
+	for k := len(chain) - 1; k >= 1 && pairs < 4; k-- {
+		b := chain[k-1] // the block whose chain index element is carried; chain[k] is a descendant
+		if !w.Applied[b] {
+			continue
+		}
+		bid := w.Tree.Blocks[b].Block.ID()
+		cie, ok := w.LedgerAt(b).CIE[bid]
+		if !ok {
+			continue
+		}
+		if len(cie.StateElement.MerkleProof) != 0 && rng.Chance(2, 3) {
+			continue // prefer the empty-proof blocks
+		}
+		if len(cie.StateElement.MerkleProof) == 0 {
+			empties++
+		}
+		pairs++
+		mk := func() []types.V2Transaction {
+			return []types.V2Transaction{{FileContractResolutions: []types.V2FileContractResolution{{
+				Parent:     types.V2FileContractElement{ID: types.FileContractID{9, byte(b)}, StateElement: types.StateElement{LeafIndex: types.UnassignedLeafIndex}},
+				Resolution: &types.V2StorageProof{ProofIndex: cie.Copy()},
+			}}}}
+		}
+		call := func(from, to int) (out []types.V2Transaction, err error) {
+			defer func() {
+				if rec := recover(); rec != nil {
+					err = fmt.Errorf("panic: %v", rec)
+					oc.Oracle("updatev2transactionset-chain-index-element-panic", "UpdateV2TransactionSet %d -> %d with a storage proof index: %v", from, to, rec)
+				}
+			}()
+			return w.Node.CM.UpdateV2TransactionSet(mk(), w.Tree.Blocks[from].Index(), w.Tree.Blocks[to].Index())
+		}
+		// forwards: to the tip and to the next block
+		for _, to := range []int{tip, chain[k]} {
+			if to == b {
+				continue
+			}
+			out, err := call(b, to)
+			oc.Op(fmt.Sprintf("cie-forward %d %d proof%d", b, to, len(cie.StateElement.MerkleProof)), fmt.Sprint(err == nil))
+			if err != nil {
+				oc.Oracle("updatev2transactionset-chain-index-element-rejected", "UpdateV2TransactionSet %d -> %d rejected a storage proof index valid at %d: %v", b, to, b, err)
+				continue
+			}
+			want, has := w.LedgerAt(to).CIE[bid]
+			sp, isSP := out[0].FileContractResolutions[0].Resolution.(*types.V2StorageProof)
+			if !has || !isSP || len(out) != 1 {
+				continue
+			}
+			got := sp.ProofIndex.StateElement
+			same := got.LeafIndex == want.StateElement.LeafIndex && len(got.MerkleProof) == len(want.StateElement.MerkleProof)
+			for i := 0; same && i < len(got.MerkleProof); i++ {
+				same = got.MerkleProof[i] == want.StateElement.MerkleProof[i]
+			}
+			if !same {
+				oc.Oracle("updatev2transactionset-chain-index-element-proof-differs-from-ledger", "UpdateV2TransactionSet %d -> %d: the storage proof's chain index element (leaf %d, proof of %d hashes at %d) came back with a proof of %d hashes; an independent node's ledger at %d has %d", b, to, got.LeafIndex, len(cie.StateElement.MerkleProof), b, len(got.MerkleProof), to, len(want.StateElement.MerkleProof))
+			}
+			tcs := w.Tree.Twin(to).CM.TipState()
+			if verr := tcs.Elements.ValidateTransactionElements(out[0]); verr != nil {
+				oc.Oracle("updatev2transactionset-chain-index-element-proof-invalid-at-target", "UpdateV2TransactionSet %d -> %d: the returned storage proof index does not validate against an independent node's accumulator at %d: %v", b, to, to, verr)
+			}
+		}
+		// backwards past the block that created the element: it does not exist there
+		if parent := w.Tree.Blocks[b].Parent; parent != 0 && w.Applied[parent] {
+			_, err := call(b, parent)
+			oc.Op(fmt.Sprintf("cie-backward %d %d proof%d", b, parent, len(cie.StateElement.MerkleProof)), fmt.Sprint(err == nil))
+			if err == nil {
+				oc.Oracle("updatev2transactionset-chain-index-element-vanished-accepted", "UpdateV2TransactionSet %d -> %d moved a storage proof index back past the block that created it (its proof at %d has %d hashes) without an error", b, parent, b, len(cie.StateElement.MerkleProof))
+			}
+		}
+	}
+	oc.Info = map[string]any{"pairs": pairs, "empty_proofs": empties}
+	if pairs > 0 {
+		r.Add(oc)
+	}
+}
+
 // treeCase: every pair of once-applied blocks within distance.
 func treeCase(r *vh.Run, rng *vh.RNG, name string) {
 	allows := []uint64{1, 2}
@@ -407,6 +494,9 @@ func treeCase(r *vh.Run, rng *vh.RNG, name string) {
 			w.Refresh()
 		}
 	}
+	if !w.Panicked && w.V2Allowed() {
+		chainIndexCase(r, w, rng, name)
+	}
 	w.Finish(pairs > 0 && w.Stats["reorgs"] > 0, "tree")
 }
 
@@ -603,7 +693,7 @@ func floodCase(r *vh.Run, rng *vh.RNG, name string) {
 }
 
 func Run(r *vh.Run) {
-	r.Rule = "tree cases: a real chain.Manager on a fork tree (main chain 4-7, 1-2 forks of depth 1-3 that overtake the tip, pool activity in between); for every once-applied block `from` a set valid there (1-3 groups: single confirmed input / parent+child / child with ephemeral and confirmed input) is moved to about 2/3 of all once-applied blocks `to` (same fork forwards and backwards, other forks, from == to), plus corrupted proofs / leaf indices, unknown and never-applied bases and targets, and 10 parent-closure queries (V2TransactionSet with v1/v2 parents, grandparent orders, stale basis); long cases: one chain of 148 blocks, paths of length 143,144,145,146 forwards and back; fork cases: two branches of 74 and 76 blocks above a common ancestor, sets moved from one branch to the other over paths of total length 140-150 with each leg below 144 (70+74 and 72+72 must succeed, 73+72 and 74+71 must fail), and stale-basis submissions across the fork at total distance 144 / 145; 2 damaged resubmissions of an already pooled transaction at a stale basis per tree through UpdateV2TransactionSet, AddV2PoolTransactions and V2TransactionSet. per tree also a lighter side chain of 3-4 stored-but-never-applied blocks used as basis and as target (error, or proofs valid at the target); flood cases: v2 pool [lowest-rate L, P, Q], V2TransactionSet for a child of P, twelve 1.9M-weight v1 submissions (no v2 submission, no tip change) so that the next entry point evicts L, V2TransactionSet again. non-trivial = at least one reorg happened and one pair was moved; distinct = distinct op lists"
+	r.Rule = "tree cases: a real chain.Manager on a fork tree (main chain 4-7, 1-2 forks of depth 1-3 that overtake the tip, pool activity in between); for every once-applied block `from` a set valid there (1-3 groups: single confirmed input / parent+child / child with ephemeral and confirmed input) is moved to about 2/3 of all once-applied blocks `to` (same fork forwards and backwards, other forks, from == to), plus corrupted proofs / leaf indices, unknown and never-applied bases and targets, and 10 parent-closure queries (V2TransactionSet with v1/v2 parents, grandparent orders, stale basis); long cases: one chain of 148 blocks, paths of length 143,144,145,146 forwards and back; fork cases: two branches of 74 and 76 blocks above a common ancestor, sets moved from one branch to the other over paths of total length 140-150 with each leg below 144 (70+74 and 72+72 must succeed, 73+72 and 74+71 must fail), and stale-basis submissions across the fork at total distance 144 / 145; 2 damaged resubmissions of an already pooled transaction at a stale basis per tree through UpdateV2TransactionSet, AddV2PoolTransactions and V2TransactionSet. per tree also an oracle-only case moving a storage-proof resolution whose proof index is a block's own chain index element (empty Merkle proof when the leaf count is odd) forwards (proof must equal an independent ledger's) and back past that block (must be an error), and a lighter side chain of 3-4 stored-but-never-applied blocks used as basis and as target (error, or proofs valid at the target); flood cases: v2 pool [lowest-rate L, P, Q], V2TransactionSet for a child of P, twelve 1.9M-weight v1 submissions (no v2 submission, no tip change) so that the next entry point evicts L, V2TransactionSet again. non-trivial = at least one reorg happened and one pair was moved; distinct = distinct op lists"
 	rng := vh.NewRNG(r.Seed).Fork()
 	n := r.Pick(120, 3000)
 	for i := 0; i < n; i++ {
